@@ -17,10 +17,10 @@ import (
 func TestStack(t *testing.T) {
 	prop := common.Prop()
 	run := map[string]func(*testing.T, *common.Result, *common.Rng){
-		"C11": runC11, "C13": runC13, "C14": runC14, "C16": runC16, "C18": runC18,
+		"C11": runC11, "C13": runC13, "C14": runC14, "C15": runC15, "C16": runC16, "C18": runC18,
 	}[prop]
 	if run == nil {
-		t.Skipf("VERIF_PROP=%q is not a stack property (C11, C13, C14, C16, C18)", prop)
+		t.Skipf("VERIF_PROP=%q is not a stack property (C11, C13, C14, C15, C16, C18)", prop)
 	}
 	res := common.NewResult("stack")
 	defer func() {
